@@ -152,7 +152,9 @@ impl LuaDeclarationTree {
                     }
                 }
             }
-            true
+            // Loop variables are visible in the loop body only, not in closures
+            // inside the header expressions.
+            scope.get_kind() != LuaScopeKind::ForRange || self.is_in_loop_body(scope, position)
         };
 
         if search_scope {
@@ -165,6 +167,16 @@ impl LuaDeclarationTree {
             if let Some(parent) = self.get_scope(&parent_id) {
                 self.visit_visible_decls(parent, position, false, f);
             }
+        }
+    }
+
+    /// The body of a `for` scope is its last child scope.
+    fn is_in_loop_body(&self, scope: &LuaScope, position: TextSize) -> bool {
+        match scope.get_children().last() {
+            Some(ScopeOrDeclId::Scope(body_id)) => self
+                .get_scope(body_id)
+                .is_some_and(|body| body.get_range().contains(position)),
+            _ => false,
         }
     }
 
